@@ -56,6 +56,8 @@ def plan(tier, seed):
     for P in (2, 4):
         for ch in range(8):
             jobs.append(("screen", P, ch, 8, seed, 20000))
+    for P in (3, 6, 8, 11, 12, 13, 16):
+        jobs.append(("screenhi", P, seed, 15000))
     jobs.append(("wiring", seed, 4000))
     jobs.sort(key=lambda j: -j[-1])
     return jobs
@@ -64,7 +66,7 @@ def plan(tier, seed):
 def run_job(job):
     if job[0] == "wiring":
         return job_wiring(job)
-    return {"sweep": job_sweep, "sweepjit": job_sweepjit, "structural": job_structural, "breaks": job_breaks, "fixed": job_fixed, "screen": job_screen}[job[0]](job)
+    return {"sweep": job_sweep, "sweepjit": job_sweepjit, "structural": job_structural, "breaks": job_breaks, "fixed": job_fixed, "screen": job_screen, "screenhi": job_screenhi}[job[0]](job)
 
 
 # --------------------------------------------------------------------------- 1. sweep
@@ -422,6 +424,57 @@ def job_screen(job):
                 r.outcome((P, combo, cnts, tuple(fixed)))
     r.count("screen_cases_skipped_near_threshold", skipped)
     r.sample({"screen": "real _homozygosity_probabilities inside _mcmc", "ploidy": P, "threshold": thr, "F": F}, cap=1)
+    return r
+
+
+def job_screenhi(job):
+    """the homozygosity screen at higher ploidies (genotype counts beyond the binomial lookup table start at ploidy 12): posterior table = reference, and the
+    sampler fixes exactly the SNVs whose homozygous posterior reaches the threshold"""
+    from mchap.assemble.mcmc import DenovoMCMC, _homozygosity_probabilities
+
+    _, P, seed, _ = job
+    r = Result()
+    payload = {"kind": "job", "job": job}
+    F = [0.1, 0.0, 0.3][seed % 3]
+    n_alleles = [2, 3]
+    ma = 3
+    e = 0.02
+    site_letters = {
+        2: [None, [1 - e, e, 0.0], [e, 1 - e, 0.0]],
+        3: [None, [1 - e, e / 2, e / 2], [e / 2, e / 2, 1 - e]],
+    }
+    letters = [(a, b) for a in site_letters[2] for b in site_letters[3]]
+    thr = 0.9
+    for k in (1, 2):
+        for combo in itertools.combinations(range(len(letters)), k):
+            for cnts in itertools.product((2, 40), repeat=k):
+                reads = np.full((k, 2, ma), np.nan)
+                for i, li in enumerate(combo):
+                    for j in range(2):
+                        if letters[li][j] is not None:
+                            reads[i, j] = letters[li][j]
+                counts = np.array(cnts)
+                hp_code = _homozygosity_probabilities(reads, np.array(n_alleles, np.int8), P, F, counts)
+                fixed, near = [], False
+                for j in range(2):
+                    site = [letters[li][j] for li in combo]
+                    hp = snv_hom_probs(site, list(cnts), n_alleles[j], P, F)
+                    r.evaluations += 1
+                    r.nontrivial += 1
+                    got = np.asarray(hp_code[j, : n_alleles[j]], float)
+                    if got.shape != (n_alleles[j],) or not np.allclose(got, hp, rtol=1e-7, atol=1e-9):
+                        r.violation("screenhi-posterior|P=%d" % P, "single-SNV homozygous posteriors %r, reference %r (reads %r counts %r SNV %d, F=%g)" % (got.tolist(), hp, combo, cnts, j, F), payload)
+                    near = near or any(abs(p - thr) < 1e-6 for p in hp)
+                    top = [a for a, p in enumerate(hp) if p >= thr]
+                    fixed.append(top[0] if top else None)
+                if near:
+                    continue
+                model = DenovoMCMC(ploidy=P, n_alleles=n_alleles, steps=2, chains=1, fix_homozygous=thr, inbreeding=F, random_seed=1)
+                r.states += 1
+                tag = "screenhi|P=%d|reads=%s|counts=%s" % (P, combo, cnts)
+                check_mcmc(r, payload, tag, model, reads, counts, fixed, n_alleles, 2, P)
+                r.outcome((P, combo, cnts, tuple(fixed)))
+    r.sample({"screen": "ploidy %d, <= 2 distinct reads x counts {2,40}" % P, "threshold": thr, "F": F}, cap=1)
     return r
 
 
